@@ -693,6 +693,11 @@ class Reindex(BoundedCheck):
                     for fl in fills[:2]:
                         for target in ('container', 'model'):
                             yield {'span': sp, 'old': old_, 'new': new, 'fills': fl, 'strict': None, 'target': target}
+        # the new span may be any of the supported span types: it becomes the result's span as it is
+        for kind in ('numpy', 'pandas', 'tuple', 'range-object'):
+            for new in ([0, 1, 2, 3], [1, 2, 3, 4], [2, 5]):
+                for target in ('container', 'model'):
+                    yield {'span': 'range', 'new': new, 'new_kind': kind, 'fills': {}, 'strict': None, 'target': target}
         yield {'span': 'range', 'new': [1, 2, 3, 4], 'fills': {}, 'strict': None, 'target': 'pandas-mixin'}
         for st_obj in (True, False):
             for st_arg in (None, True, False):
@@ -705,6 +710,16 @@ class Reindex(BoundedCheck):
         mk = {'range': lambda xs: [2000 + i for i in xs], 'list-str': lambda xs: [f'p{i}' for i in xs]}[case['span']]
         old = mk(case.get('old', [0, 1, 2, 3]))
         new = mk(case['new'])
+        new_obj = new
+        if case.get('new_kind') == 'numpy':
+            new_obj = np.array(new)
+        elif case.get('new_kind') == 'pandas':
+            import pandas as pd
+            new_obj = pd.Index(new)
+        elif case.get('new_kind') == 'tuple':
+            new_obj = tuple(new)
+        elif case.get('new_kind') == 'range-object' and new == list(range(new[0], new[0] + len(new))):
+            new_obj = range(new[0], new[0] + len(new))
         if case['target'] == 'pandas-mixin':
             from fsic.extensions.model import PandasIndexFeaturesMixin
 
@@ -754,7 +769,7 @@ class Reindex(BoundedCheck):
         eff_strict = c.strict if strict is None else strict
         unknown = [k for k in fills if k not in c.index]
         try:
-            r = c.reindex(new, fill_value=fv, strict=strict, **fills)
+            r = c.reindex(new_obj, fill_value=fv, strict=strict, **fills)
             raised = None
         except Exception as ex:  # noqa: BLE001
             raised = ex
@@ -767,6 +782,8 @@ class Reindex(BoundedCheck):
         if raised is not None:
             out.append(Violation('reindex returns a new object', f'c12.raises:{type(raised).__name__}', case, 'object', repr(raised)[:80]))
             return out
+        if case.get('new_kind') and (type(r.span) is not type(new_obj)):
+            out.append(Violation('the span of the result is the new span (of whatever supported span type it is)', f"c12.span-type:{case['new_kind']}", case, type(new_obj).__name__, type(r.span).__name__))
         if type(r) is not type(c) or list(r.span) != list(new) or list(r.index) != list(c.index):
             out.append(Violation('result is a new object of the same class with the new span and the same variable order', 'c12.shape', case,
                                  [type(c).__name__, list(new), list(c.index)], [type(r).__name__, list(r.span), list(r.index)], 'reindexed'))
